@@ -1,6 +1,6 @@
 (* Props/C13.v -- property C13: UAC INVITE: responses map deterministically to early dialogs, sessions, failure *)
 From Coq Require Import List NArith Bool.
-From EZK Require Import Lib.Bytes Model.C13 Proofs.C13.
+From EZK Require Import Gen.Tables Lib.Bytes Model.C13 Proofs.C13 Model.C13q Proofs.C13q.
 Import ListNotations.
 Open Scope N_scope.
 
@@ -49,6 +49,33 @@ Theorem C13_order_independent : forall rs1 rs2,
   Forall tagged_1xx_2xx rs1 -> (forall r, In r rs1 <-> In r rs2) ->
   forall t, In t (dialog_tags (fst (run rs1))) <-> In t (dialog_tags (fst (run rs2))).
 Proof. exact order_independent. Qed.
+
+(* no response is lost on its way to an early dialog: the initiator hands it over with send().await, so under every
+   interleaving of arrivals and of the application's reads (an application that reads late included) what was read, what
+   is buffered and what still waits are - in this order - exactly what arrived; a reader that keeps reading gets all *)
+Theorem C13_forward_blocks_guard : early_forward_blocks = true.
+Proof. reflexivity. Qed.
+
+Theorem C13_channel_no_loss : forall evs, early_forward_blocks = true ->
+  let c := early_chan evs in (got c ++ queue c ++ waiting c = arrivals evs /\ lost c = [])%list.
+Proof. exact early_no_loss. Qed.
+
+Theorem C13_channel_in_order : forall evs, early_forward_blocks = true ->
+  exists rest, (arrivals evs = got (early_chan evs) ++ rest)%list.
+Proof. exact early_prefix. Qed.
+
+Theorem C13_channel_all_read : forall evs, early_forward_blocks = true ->
+  got (early_chan (evs ++ repeat Read (length (arrivals evs)))) = arrivals evs.
+Proof. exact early_all_read. Qed.
+
+(* the form that gives up on a full buffer does lose: five responses behind a late reader, four slots *)
+Theorem C13_channel_try_send_refuted : lost (crun false 4 (map Arrive [1; 2; 3; 4; 5])) = [5].
+Proof. exact try_send_loses. Qed.
+
+Example C13_channel_example :
+  let c := early_chan [Arrive 1; Arrive 2; Arrive 3; Arrive 4; Arrive 5; Arrive 6; Read; Read; Arrive 7] in
+  (got c, queue c, waiting c, lost c) = ([1; 2], [3; 4; 5; 6], [7], []).
+Proof. vm_compute. reflexivity. Qed.
 
 Example C13_example :
   snd (run [mkresp 100 None; mkresp 180 (Some (B"a")); mkresp 183 (Some (B"b")); mkresp 180 (Some (B"a"));
